@@ -33,9 +33,10 @@ type SubSpec struct {
 
 // ClientSpec describes one scripted client.
 type ClientSpec struct {
-	ID   string
-	V    byte // 3, 4, 5
-	Subs [][]SubSpec // SUBSCRIBE packets in order (later ones override earlier ones with the same filter)
+	ID    string
+	V     byte        // 3, 4, 5
+	Subs  [][]SubSpec // SUBSCRIBE packets in order (later ones override earlier ones with the same filter)
+	Unsub []string    // filters removed again with UNSUBSCRIBE after all SUBSCRIBE packets
 }
 
 // Msg is one publication.
@@ -58,7 +59,10 @@ type Scenario struct {
 	Mode      string // overlap | onlyonce
 	QueueQoS0 bool
 	Clients   []ClientSpec
-	Pubs      []PubSpec
+	// Churn clients subscribe after the regular clients and then leave (their session ends) before
+	// anything is published: the subscription store has a history, the subscription tables do not change.
+	Churn []ClientSpec
+	Pubs  []PubSpec
 }
 
 var levels = []string{"a", "b", "", "$s"}
@@ -158,7 +162,38 @@ func Generate(rng *rand.Rand, maxClients, maxMsgs int) Scenario {
 			}
 			c.Subs = append(c.Subs, pk)
 		}
+		if rng.Intn(3) == 0 {
+			t := c.table()
+			for _, sp := range t[1:] {
+				if rng.Intn(3) == 0 {
+					c.Unsub = append(c.Unsub, sp.Filter)
+				}
+			}
+		}
 		sc.Clients = append(sc.Clients, c)
+	}
+	for i := 0; i < rng.Intn(3); i++ {
+		c := ClientSpec{ID: fmt.Sprintf("churn%d", i), V: []byte{4, 5}[rng.Intn(2)]}
+		var pk []SubSpec
+		seen := map[string]bool{}
+		for j := 0; j < 1+rng.Intn(3); j++ {
+			f := filters[rng.Intn(len(filters))]
+			if rng.Intn(2) == 0 { // a proper prefix of somebody's filter: an inner node of the store
+				if ls := strings.Split(f, "/"); len(ls) > 1 {
+					if pf := strings.Join(ls[:1+rng.Intn(len(ls)-1)], "/"); pf != "" {
+						f = pf
+					}
+				}
+			}
+			if !seen[f] && refmodel.ValidFilter(f) {
+				seen[f] = true
+				pk = append(pk, SubSpec{Filter: f, QoS: byte(rng.Intn(3))})
+			}
+		}
+		if len(pk) > 0 {
+			c.Subs = [][]SubSpec{pk}
+			sc.Churn = append(sc.Churn, c)
+		}
 	}
 	np := 1 + rng.Intn(4)
 	for p := 0; p < np; p++ {
@@ -191,17 +226,22 @@ func (c ClientSpec) table() []SubSpec {
 			m[s.Filter] = s
 		}
 	}
+	for _, f := range c.Unsub {
+		delete(m, f)
+	}
 	out := []SubSpec{{Filter: "sentinel/#", QoS: 1}}
 	for _, f := range order {
-		out = append(out, m[f])
+		if s, ok := m[f]; ok {
+			out = append(out, s)
+		}
 	}
 	return out
 }
 
 type expCopy struct {
-	QoS       byte
-	Retain    int // 0, 1, or -1 = either
-	IDs       []uint32
+	QoS    byte
+	Retain int // 0, 1, or -1 = either
+	IDs    []uint32
 }
 
 func (e expCopy) String() string { return fmt.Sprintf("q%d r%d ids%v", e.QoS, e.Retain, e.IDs) }
@@ -339,6 +379,44 @@ func RunScenario(sc *Scenario, yield func(string)) (fs []finding, obs map[string
 				add("suback.len", fmt.Sprintf("SUBACK has %d codes for %d filters", len(sa.Codes), len(subs)), nil)
 			}
 		}
+	}
+
+	for i, cs := range sc.Clients {
+		if len(cs.Unsub) > 0 {
+			if _, err := clients[i].Unsubscribe(cs.Unsub, step); err != nil {
+				return nil, nil, nil, fmt.Errorf("unsubscribe %s: %v", cs.ID, err)
+			}
+			obs["unsubscribed_filters"] += len(cs.Unsub)
+		}
+	}
+	for _, cs := range sc.Churn {
+		c, err := wire.Dial(cs.ID, b.Addr, mqttx.Version(cs.V))
+		if err != nil {
+			return nil, nil, nil, err
+		}
+		if ack, err := c.Connect(&mqttx.Packet{ClientID: cs.ID, CleanStart: true}, step); err != nil || ack.Code != 0 {
+			c.Close()
+			return nil, nil, nil, fmt.Errorf("connect %s: %v %v", cs.ID, ack, err)
+		}
+		var subs []mqttx.Sub
+		for _, s := range cs.Subs[0] {
+			subs = append(subs, mqttx.Sub{Filter: s.Filter, QoS: s.QoS})
+		}
+		if _, err := c.Subscribe(subs, 0, step); err != nil {
+			c.Close()
+			return nil, nil, nil, fmt.Errorf("subscribe %s: %v", cs.ID, err)
+		}
+		from := b.Log.Len()
+		if cs.V == 5 {
+			c.Disconnect(0, nil)
+		}
+		c.Close()
+		// a clean session (v3.1.1) / a session without expiry interval (v5) ends with its connection
+		if _, ok := b.Log.Wait(0, func(ev broker.Event) bool { return ev.Kind == "OnSessionTerminated" && ev.Client == cs.ID }, step); !ok {
+			_ = from
+			return nil, nil, nil, fmt.Errorf("churn client %s: session end not observed", cs.ID)
+		}
+		obs["churn_sessions_ended"]++
 	}
 
 	// publishers run concurrently
